@@ -15,13 +15,17 @@ package main
 //   well-formed Logon addressed to it; val=1: a ConnectionValidator refuses counterparties whose CompID starts with X
 //   events: sA<k> sB<k> (k submissions on the initiator / acceptor side)   p<k> (k on both sides concurrently)
 //           up (wait until both sides are logged on)   w<ms>   cut   hold holdAB holdBA   rel   down   open
+//           cutpdAB cutpdBA (arm the proxy: it watches the bytes and, ONCE, when the first replayed message — PossDupFlag
+//           43=Y — travels initiator->acceptor / acceptor->initiator, resets the connection in both directions, i.e. in
+//           the middle of the replay answering a ResendRequest; afterwards it only forwards)
 //           rsA rsB (stop the engine and recreate it on its store; file store only)
 //           jraw:<hex> (raw connection to the acceptor, literal bytes)   jmsg:<hex of SOH-less field list f1|f2|…>
 //           (framed at execution time: BodyLength, CheckSum, `@0` = now)   jses:<item>+<item>… (a second configured
 //           session J logs on with a valid Logon and then sends the items: m<hex fields> framed, r<hex> literal)
 // Observation (one line):
+//   (id lists: comma separated, runs of consecutive ids abbreviated a1..a3000, empty = -)
 //   obs try=<k> settled=<y|n> subA=… subB=… dlvA=… dlvB=… mid=<ok|bad> refused=<n> lonA= loutA= lonB= loutB=
-//       pairA=<ok|open|double> pairB= panics=<n> junk=<n> serveJ=<y|n|-> stopped=<y|n>
+//       pairA=<ok|open|double> pairB= panics=<n> junk=<n> serveJ=<y|n|-> stopped=<y|n> pdcuts=<n> hung=<n>
 //   crashed <panic|fatal|exit>      the worker process died (an unrecovered panic of an engine goroutine)
 //   stalled                         the worker did not answer in time
 // The scheduling is real, so the observation is NOT predicted by the model: lean/Qfx/Drv/SockMon.lean decides the round.
@@ -60,6 +64,8 @@ type sockProxy struct {
 	cond   *sync.Cond
 	refuse bool
 	hold   [2]bool // direction 0: initiator -> acceptor, 1: acceptor -> initiator
+	armPD  [2]bool // cut once, when the first PossDup message is seen in that direction
+	pdCuts int
 	split  int
 	links  map[*sockLink]bool
 	closed bool
@@ -127,6 +133,16 @@ func (p *sockProxy) reader(l *sockLink, d int) {
 	for {
 		n, err := l.c[d].Read(buf)
 		p.mu.Lock()
+		if n > 0 && !l.dead && p.armPD[d] && bytes.Contains(buf[:n], []byte("\x0143=Y\x01")) {
+			// the replay has started: reset the connection under it (SO_LINGER 0: the engine's next write fails)
+			p.armPD[d] = false
+			p.pdCuts++
+			for k := range p.links {
+				p.abortLocked(k)
+			}
+			p.mu.Unlock()
+			return
+		}
 		if n > 0 && !l.dead {
 			l.q[d] = append(l.q[d], append([]byte(nil), buf[:n]...))
 		}
@@ -198,6 +214,21 @@ func (p *sockProxy) killLocked(l *sockLink) {
 	p.cond.Broadcast()
 }
 
+func (p *sockProxy) abortLocked(l *sockLink) {
+	for _, c := range l.c {
+		if tc, ok := c.(*net.TCPConn); ok {
+			tc.SetLinger(0)
+		}
+	}
+	p.killLocked(l)
+}
+
+func (p *sockProxy) arm(d int) {
+	p.mu.Lock()
+	p.armPD[d] = true
+	p.mu.Unlock()
+}
+
 // cut closes every link in both directions; whatever the proxy holds is lost.
 func (p *sockProxy) cut() {
 	p.mu.Lock()
@@ -253,6 +284,7 @@ type sockRound struct {
 	dlv        [2][]string
 	ctr        [2]int
 	refused    int
+	hung       [2]int // SendToTarget calls that did not return within 3 s
 	midBad     bool
 	lon, lout  [2]int
 	on         [2]bool // between an OnLogon and the next OnLogout
@@ -503,6 +535,10 @@ func timed(d time.Duration, f func()) bool {
 func (r *sockRound) submit(side, k int) {
 	for i := 0; i < k; i++ {
 		r.mu.Lock()
+		if r.hung[side] > 0 { // a SendToTarget of this side never came back: the next one would not either
+			r.mu.Unlock()
+			return
+		}
 		r.ctr[side]++
 		id := string("ab"[side]) + strconv.Itoa(r.ctr[side])
 		r.sub[side] = append(r.sub[side], id) // recorded first: the delivery may overtake the return of SendToTarget
@@ -510,7 +546,15 @@ func (r *sockRound) submit(side, k int) {
 		m := quickfix.NewMessage()
 		m.Header.SetString(35, "D")
 		m.Body.SetString(9000, id)
-		if err := quickfix.SendToTarget(m, r.sid[side]); err != nil {
+		var err error
+		if !timed(3*time.Second, func() { err = quickfix.SendToTarget(m, r.sid[side]) }) {
+			r.mu.Lock()
+			r.hung[side]++
+			r.mu.Unlock()
+			r.note("submit %s: SendToTarget did not return within 3s", id)
+			return
+		}
+		if err != nil {
 			r.mu.Lock()
 			if n := len(r.sub[side]); n > 0 && r.sub[side][n-1] == id {
 				r.sub[side] = r.sub[side][:n-1]
@@ -545,6 +589,49 @@ func (r *sockRound) equalNow() bool {
 	r.mu.Lock()
 	defer r.mu.Unlock()
 	return sockEq(r.dlv[0], r.sub[1]) && sockEq(r.dlv[1], r.sub[0])
+}
+
+func (r *sockRound) pxCuts() int {
+	r.px.mu.Lock()
+	defer r.px.mu.Unlock()
+	return r.px.pdCuts
+}
+
+// csvR: comma separated ids, runs of consecutive ids (same letter, numbers +1) written first..last
+func csvR(xs []string) string {
+	if len(xs) == 0 {
+		return "-"
+	}
+	num := func(s string) (byte, int, bool) {
+		if len(s) < 2 {
+			return 0, 0, false
+		}
+		n, err := strconv.Atoi(s[1:])
+		if err != nil || n < 0 || strconv.Itoa(n) != s[1:] {
+			return 0, 0, false
+		}
+		return s[0], n, true
+	}
+	var out []string
+	for i := 0; i < len(xs); {
+		j := i
+		if c, n, ok := num(xs[i]); ok {
+			for j+1 < len(xs) {
+				c2, n2, ok2 := num(xs[j+1])
+				if !ok2 || c2 != c || n2 != n+(j+1-i) {
+					break
+				}
+				j++
+			}
+		}
+		if j-i >= 2 {
+			out = append(out, xs[i]+".."+xs[j])
+		} else {
+			out = append(out, xs[i:j+1]...)
+		}
+		i = j + 1
+	}
+	return strings.Join(out, ",")
 }
 
 func sockEq(a, b []string) bool {
@@ -775,6 +862,12 @@ func (r *sockRound) run() string {
 	var upSince time.Time
 	for time.Now().Before(end) {
 		now := time.Now()
+		r.mu.Lock()
+		stuck := r.hung[0]+r.hung[1] > 0
+		r.mu.Unlock()
+		if stuck && now.After(end.Add(-bound).Add(3*time.Second)) {
+			break // a SendToTarget never came back: the engine is stuck, three more seconds are enough
+		}
 		if !r.isUp() {
 			upSince = time.Time{}
 		} else {
@@ -828,11 +921,11 @@ func (r *sockRound) run() string {
 		}
 		return "ok"
 	}
-	obs := fmt.Sprintf("obs try=%d settled=%s subA=%s subB=%s dlvA=%s dlvB=%s mid=%s refused=%d lonA=%d loutA=%d lonB=%d loutB=%d pairA=%s pairB=%s panics=%d junk=%d serveJ=%s stopped=%s",
-		r.try, yn(settled), csv(r.sub[0]), csv(r.sub[1]), csv(r.dlv[0]), csv(r.dlv[1]), map[bool]string{false: "ok", true: "bad"}[r.midBad],
-		r.refused, r.lon[0], r.lout[0], r.lon[1], r.lout[1], pair(0), pair(1), atomic.LoadInt32(&r.panics), r.junkN, serveJ, yn(stopped))
+	obs := fmt.Sprintf("obs try=%d settled=%s subA=%s subB=%s dlvA=%s dlvB=%s mid=%s refused=%d lonA=%d loutA=%d lonB=%d loutB=%d pairA=%s pairB=%s panics=%d junk=%d serveJ=%s stopped=%s pdcuts=%d hung=%d",
+		r.try, yn(settled), csvR(r.sub[0]), csvR(r.sub[1]), csvR(r.dlv[0]), csvR(r.dlv[1]), map[bool]string{false: "ok", true: "bad"}[r.midBad],
+		r.refused, r.lon[0], r.lout[0], r.lon[1], r.lout[1], pair(0), pair(1), atomic.LoadInt32(&r.panics), r.junkN, serveJ, yn(stopped), r.pxCuts(), r.hung[0]+r.hung[1])
 	complete := settled && sockEq(r.dlv[0], r.sub[1]) && sockEq(r.dlv[1], r.sub[0]) && !r.midBad && stopped && serveJ != "n" &&
-		pair(0) == "ok" && pair(1) == "ok" && r.panics == 0
+		pair(0) == "ok" && pair(1) == "ok" && r.panics == 0 && r.hung[0]+r.hung[1] == 0
 	dbg := append([]string(nil), r.dbg...)
 	r.mu.Unlock()
 	if !complete || getenv("VERIF_SOCK_DEBUG") != "" {
@@ -863,6 +956,10 @@ func (r *sockRound) event(e string) {
 		r.px.setHold(false, true)
 	case e == "rel":
 		r.px.setHold(false, false)
+	case e == "cutpdAB":
+		r.px.arm(0)
+	case e == "cutpdBA":
+		r.px.arm(1)
 	case e == "down":
 		r.px.setRefuse(true)
 	case e == "open":
@@ -1053,7 +1150,8 @@ func sockTimingOnly(obs string) bool {
 	if !strings.HasPrefix(obs, "obs ") {
 		return false
 	}
-	return strings.Contains(obs, " settled=n ") || strings.Contains(obs, " serveJ=n ") || strings.Contains(obs, " stopped=n")
+	return strings.Contains(obs, " settled=n ") || strings.Contains(obs, " serveJ=n ") || strings.Contains(obs, " stopped=n") ||
+		!strings.HasSuffix(obs, " hung=0")
 }
 
 const sockRetryBudget = 8
@@ -1075,7 +1173,7 @@ func (s *sockSup) exec(op string) string {
 	s.mu.Lock()
 	delete(s.inflight, op)
 	s.mu.Unlock()
-	for try := 2; try <= 3 && sockTimingOnly(obs) && s.retried < sockRetryBudget; try++ {
+	for try := 2; try <= 3 && sockTimingOnly(obs) && s.retried < sockRetryBudget && getenv("VERIF_SOCK_NORETRY") == ""; try++ {
 		s.retried++
 		obs = s.runWorker(op, try)
 	}
@@ -1309,6 +1407,9 @@ func sockOpKinds(seed uint64, idx int, tier string, junk bool) (string, []string
 	r := newRng(seed*0x1000193 ^ uint64(idx+1)*0x9E3779B1 ^ salt<<40)
 	r.u64()
 	quick := tier != "thorough"
+	if !junk && idx%sockReplayEvery == int(seed%sockReplayEvery) {
+		return sockReplayCutOp(r, seed, idx)
+	}
 	bsi := []int{2, 4, 5}[r.intn(3)]
 	g := &sockGen{r: r, bs: bsNames[bsi], id: strconv.Itoa(idx), nextKind: int(seed%9) + 3*idx}
 	store := r.pick([]string{"mem", "file"})
@@ -1464,6 +1565,39 @@ func sockOpKinds(seed uint64, idx int, tier string, junk bool) (string, []string
 	return op, g.kinds
 }
 
+// One round in sockReplayEvery (so at least one per quick budget, which one is a function of the seed) is the
+// "cut in the middle of a replay" round: while the link is down one side submits a large backlog; when the link comes
+// back the other side asks for it (ResendRequest, no chunking), and the proxy resets the connection the moment the
+// first replayed message passes — the replaying engine is then in the middle of a burst of blocking sends to its write
+// loop.  Afterwards the proxy only forwards: the backlog has to arrive after the next logon.  The backlog is large
+// enough that the burst cannot be finished before the reset takes effect (see notes/sock.md for the measurement).
+const sockReplayEvery = 7
+
+// measured on the seeded change "writeLoop returns after a failed write" under 64 busy loops on 16 cores: a backlog of
+// 300 was missed in 1 of 6 rounds (the replay was over before the reset took effect), 1000 / 2000 / 3000 in 0 of 18
+func sockReplayBacklog(store string) int {
+	if store == "file" {
+		return 2000 // the file store makes both the submissions and the replay slower
+	}
+	return 3000
+}
+
+func sockReplayCutOp(r *rng, seed uint64, idx int) (string, []string) {
+	bsi := []int{2, 4, 5}[r.intn(3)]
+	store := r.pick([]string{"mem", "file"})
+	dir := []string{"BA", "AB"}[(int(seed/sockReplayEvery)+int(seed)+idx/sockReplayEvery)%2]
+	from, other := "B", "A" // BA: the acceptor replays towards the initiator
+	if dir == "AB" {
+		from, other = "A", "B"
+	}
+	ev := []string{"up", fmt.Sprintf("s%s%d", from, 1+r.intn(3)), fmt.Sprintf("s%s%d", other, 1+r.intn(3)), "down", "cut",
+		fmt.Sprintf("s%s%d", from, sockReplayBacklog(store)), fmt.Sprintf("s%s%d", other, 1+r.intn(3)), "cutpd" + dir, "open", "up",
+		fmt.Sprintf("s%s%d", from, 1+r.intn(2)), fmt.Sprintf("s%s%d", other, 1+r.intn(2))}
+	op := fmt.Sprintf("round id=%d bs=%d store=%s ca=0 cb=0 hb=1 ri=200 split=0 quiet=300 wait=10000 start=open stop=%s probe=0 dyn=0 val=0 ev=%s",
+		idx, bsi, store, r.pick([]string{"ia", "ai"}), strings.Join(ev, ","))
+	return op, []string{"fault.cut-during-replay." + dir, "bs." + bsNames[bsi], "store." + store, "split.0"}
+}
+
 func genSockFlavour(junk bool) func(r *rng, tier string, idx int, o *out, do func(string) string) string {
 	return func(_ *rng, tier string, idx int, o *out, do func(string) string) string {
 		op, kinds := sockOpKinds(runSeed, idx, tier, junk)
@@ -1474,6 +1608,13 @@ func genSockFlavour(junk bool) func(r *rng, tier string, idx int, o *out, do fun
 		switch {
 		case strings.HasPrefix(obs, "obs "):
 			o.kind("outcome.observed")
+			if strings.Contains(op, ",cutpd") {
+				if strings.Contains(obs, " pdcuts=1 ") {
+					o.kind("outcome.replay-cut-injected")
+				} else {
+					o.kind("outcome.replay-cut-NOT-injected")
+				}
+			}
 			if strings.Contains(obs, " try=2 ") || strings.Contains(obs, " try=3 ") {
 				o.kind("outcome.retried")
 			}
